@@ -355,7 +355,7 @@ def is_undef(x):
 def _do_copy(m: BufferMachine, core, src: View, dst: View, desc, tag):
     si, di = list(src.indices()), list(dst.indices())
     if len(si) != len(di):
-        raise HarnessError(f"copy between views of different size {src} {dst}")
+        raise Violation("copy-shape", f"{desc} copies between buffers of different shapes: {src} and {dst}")
     read = []
     first = True
     for cs, cd in zip(m.chunks(si), m.chunks(di)):
